@@ -482,7 +482,10 @@ Section Main.
     rewrite Nat.sub_diag. cbn [skipn firstn app]. rewrite find_local_frame by assumption.
     rewrite fl_false. cbn [fst snd]. destruct (loc n F).
     - reflexivity.
-    - rewrite g_gt1. cbn [negb andb]. f_equal.
+    - rewrite g_gt1. cbn [negb andb].
+      assert (HL : Nat.leb g (length (F ++ ECtx :: R)) = true).
+      { apply Nat.leb_le. rewrite HU. rewrite app_assoc. rewrite app_length. unfold g. lia. }
+      rewrite HL. f_equal.
       rewrite HU. rewrite app_assoc. unfold g. rewrite skipn_app_len. apply find_global_gseg.
   Qed.
 
@@ -889,7 +892,7 @@ Proof.
   pose proof (find_local_length n p (stk s)) as L.
   destruct (find_local n p (stk s)) as [r l']. simpl in L.
   destruct r; simpl; auto.
-  destruct (negb p && g && (1 <? gsfi s)); simpl; auto.
+  destruct (negb p && g && (1 <? gsfi s) && (gsfi s <=? length (stk s))); simpl; auto.
 Qed.
 
 Lemma deact_length : forall l, length (deact l) = length l.
